@@ -12,6 +12,15 @@ Events that refute
                => BadReply; anything else incomplete => the parser must ask for more (WouldBlock on the
                scripted socket, ConnectionLost at EOF) and must not return a partial reply.
 
+  build paths: the same round trip for every public way of populating the written Reply (constructor, attribute
+               assignment in both orders, copy(), explicit / disabled enhanced status code, code or message
+               re-assigned afterwards, the pre-defined module-level replies, newline_first, send(flush=True)) x every
+               way the library reads one (fresh Reply, the Client's Reply with the enhanced status code disabled,
+               a re-used Reply object, IO.recv_reply directly); the written Reply.message is also compared with
+               the caller's text (documented normalisation: ESC class rewritten to the code class, default
+               X.0.0 added, white space after the ESC collapsed); Reply.recv on malformed input must agree with
+               IO.recv_reply and leave the object unpopulated.
+
 The real IO and Reply classes run unmodified on vf.sock.ScriptSocket.
 """
 import re
@@ -31,9 +40,12 @@ LEVEL_TEXT = ('Real Reply.send/IO.send_reply and Reply.recv/IO.recv_reply run on
               'concatenated replies with trailers, each under whole/bytewise/every single cut/pairs of cuts '
               'around reply boundaries/seeded segmentations; plus EVERY byte string over '
               '{2,5,x,-,SP,CR,LF,0xFF} up to length 7 (quick) / 8 (thorough) compared call-by-call with a '
-              'reference reply parser. Held = held on the evaluations reported; not a proof for longer inputs.')
+              'reference reply parser. Build paths: 11 ways of populating the written Reply x 10 codes x the directed '
+              'texts (+ seeded sequences over all codes) x 4 reader modes, newline_first and send(flush=True) '
+              'included. Held = held on the evaluations reported; not a proof for longer inputs.')
 LEVEL_NOTE = ('Trusted: ScriptSocket, the reference parser ref_parse() (25 lines), norm() (LF->CRLF), the ESC '
-              'regular expression used on the wire.')
+              'regular expression used on the wire, model_message() (10 lines: what Reply.message documents for a '
+              'caller-supplied text).')
 TECHNIQUE = ('runtime monitoring: round-trip identity + exact-consumption oracle; differential comparison with a '
              'reference parser over an exhaustive small-alphabet input space')
 RULE = ('three case kinds. dir: one (code, text) for every code 200..599 x every directed text; rand: seeded '
@@ -46,7 +58,12 @@ RULE = ('three case kinds. dir: one (code, text) for every code 200..599 x every
         '4 (thorough) of 13 '
         'whole-line shapes (good final/continuation lines of two codes, invalid UTF-8, non-numeric code, code '
         'only, no separator, empty line, split multi-byte character, unterminated tails) x whole/bytewise/every '
-        'single cut/pairs around line ends/seeded. non-trivial & distinct = distinct (codes, texts) with a '
+        'single cut/pairs around line ends/seeded; the whole and bytewise deliveries are also read through '
+        'Reply.recv. ctor: sequence of 1..3 replies, each populated by one of 11 build paths (directed: every '
+        'build x 10 codes x every directed text + a seeded successor; seeded: random builds/codes 200..599/token '
+        'texts, newline_first, flush) x whole/bytewise/every single cut/pairs around reply boundaries/seeded, '
+        'reader mode fresh|client-noesc|reused|raw (all four on whole and bytewise, rotating on the rest). '
+        'non-trivial & distinct = distinct (codes, texts) with a '
         'multi-line text, an ESC prefix whose class differs from the code, or a pipelined successor; and '
         'distinct malformed strings holding at least one complete line')
 ASSUMPTIONS = ['ScriptSocket hands out exactly the scripted segments (recv(n) never returns more than n)',
@@ -55,9 +72,18 @@ ASSUMPTIONS = ['ScriptSocket hands out exactly the scripted segments (recv(n) ne
                'texts are str without lone surrogates; first line does not start with white space (statement)',
                'reply lines consisting of the code only ("250" CRLF, valid in RFC 5321 but never written by the '
                'library) and numeric codes outside 1xx-5xx are recorded, not judged',
-               'invalid UTF-8 is judged when the reply is complete (the parser may decode at the end)']
+               'invalid UTF-8 is judged when the reply is complete (the parser may decode at the end)',
+               'a reply written with the enhanced status code disabled (banner/EHLO/HELO path) is compared exactly '
+               'when read the way the library reads it (Reply with the ESC disabled, or IO.recv_reply); read into a '
+               'plain Reply the documented default X.0.0 / class rewrite of reader_model() is the expected text',
+               'the blank line written for newline_first is not a reply: the reader may skip it or reject it with '
+               'BadReply, consuming exactly that line; the reply after it is judged as usual',
+               'bytes or None as message, a TAB as code/text separator: recorded, not judged']
 REQUIRED_HITS = ['roundtrip-compared', 'successor-compared', 'esc-class-compared', 'malformed-judged',
-                 'malformed-badreply-confirmed', 'malformed-pending-confirmed']
+                 'malformed-badreply-confirmed', 'malformed-pending-confirmed',
+                 'caller-text-compared', 'build-path-compared', 'noesc-pair-compared', 'reused-reader-compared',
+                 'raw-reader-compared', 'newline-first-judged', 'flush-judged', 'is-error-compared',
+                 'reply-recv-malformed-compared']
 SHARDS = {'quick': 16, 'thorough': 16}
 BUDGET = {'quick': 60, 'thorough': 900}
 EXHAUSTIVE = {'quick': False, 'thorough': False}
@@ -88,6 +114,18 @@ TOKENS = ['a', 'b', 'OK', ' ', '  ', '\t', '\r', '\n', '\r\n', '\r\n', '\r\n\r\n
 TRAILERS = [b'', b'', b'250-pa', b'x', b'5', b'\r']
 LONG = 'L' * 4090 + '\r\n2.0.0 ' + 'é' * 3000
 
+MANY = '\r\n'.join('line %d' % i for i in range(300))
+# build paths of the written Reply, reader modes, codes of the directed build-path stratum
+BUILDS = ['ctor', 'attrs', 'msg-first', 'copy', 'esc-explicit', 'esc-false', 'esc-false-remsg', 'recode', 'remsg',
+          'esc-none', 'copy-noesc']
+READERS = ['fresh', 'client-noesc', 'reused', 'raw']
+CTOR_CODES = ['220', '250', '251', '300', '354', '421', '451', '550', '554', '599']
+AUX_ESC = ['2.1.5', '4.2.2', '5.7.1', '5.999.0', '2.0.0']
+AUX_CODE = ['250', '354', '451', '550', '220']
+PREDEFINED = ['unknown_command', 'unknown_parameter', 'bad_sequence', 'bad_arguments', 'timed_out',
+              'unhandled_error', 'connection_failed', 'tls_failure', 'invalid_credentials']
+NCTOR = {'quick': 4000, 'thorough': 120000}
+
 ESC_WIRE = re.compile(r'^([245])\.\d{1,3}\.\d{1,3}(?:\s|$)')
 ESC_LOOK = re.compile(r'^[245]\.\d\d?\d?\.\d\d?\d?\s')
 
@@ -103,7 +141,7 @@ def ref_parse(s):
        ('reply', code, text, end)   a complete well-formed reply ending at offset end
        ('bad', cls, end)            decisive malformed line (cls: non-numeric-code | bad-separator |
                                     code-mismatch | invalid-utf8)
-       ('unjudged', cls, end)       code-only line / numeric code outside 1xx..5xx
+       ('unjudged', cls, end)       code-only line / numeric code outside 1xx..5xx / TAB after the code
        ('pending', dirty)           nothing decisive buffered; dirty = complete lines of the unfinished
                                     reply hold invalid UTF-8 (early BadReply tolerated)"""
     ev, code, texts, pos = [], None, [], 0
@@ -119,6 +157,8 @@ def ref_parse(s):
         if len(line) == 3:
             return ev + [('unjudged', 'code-only-line', pos)]
         sep = line[3:4]
+        if sep == b'\t':
+            return ev + [('unjudged', 'tab-separator', pos)]
         if sep not in (b' ', b'-'):
             return ev + [('bad', 'bad-separator', pos)]
         if code is not None and line[:3] != code:
@@ -150,7 +190,8 @@ def gen_cases(tier, seed, shard, nshards):
             if n % nshards == shard:
                 yield {'kind': 'lines', 'first': first, 'total': total, 'rs': seed * 7919 + n}
             n += 1
-    for s in (b'600 x\r\n', b'099 x\r\n', b'000-a\r\n000 b\r\n', b'999 \r\n', b'250\r\n', b'250-a\r\n250\r\n'):
+    for s in (b'600 x\r\n', b'099 x\r\n', b'000-a\r\n000 b\r\n', b'999 \r\n', b'250\r\n', b'250-a\r\n250\r\n',
+              b'250\tx\r\n', b'250-a\r\n250\tb\r\n250 c\r\n'):
         if n % nshards == shard:
             yield {'kind': 'unj', 'stream': s}
         n += 1
@@ -163,6 +204,32 @@ def gen_cases(tier, seed, shard, nshards):
         if n % nshards == shard:
             yield {'kind': 'long', 'replies': [[str(code), LONG], ['250', 'next']], 'trailer': b'', 'rs': code}
         n += 1
+        if n % nshards == shard:
+            yield {'kind': 'long', 'replies': [[str(code), MANY], ['250', 'next']], 'trailer': b'250-', 'rs': code}
+        n += 1
+    if n % nshards == shard:
+        yield {'kind': 'odd'}
+    n += 1
+    # build paths: every build x code x directed text, followed by a seeded successor
+    g = random.Random('c17-ctor-%d' % seed)
+    for bi, build in enumerate(BUILDS):
+        for code in CTOR_CODES:
+            for ti, t in enumerate(DIRECTED):
+                aux = (bi + ti + int(code)) % 5
+                succ = [g.choice(BUILDS), str(g.randrange(200, 600)), g.choice(DIRECTED), g.randrange(5)]
+                nl = g.choice([-1, -1, -1, 0, 1])
+                fl = g.randrange(3)
+                rs = g.randrange(1 << 30)
+                if n % nshards == shard:
+                    yield {'kind': 'ctor', 'items': [[build, code, t, aux], succ], 'trailer': b'', 'nl': nl,
+                           'send': fl, 'rs': rs}
+                n += 1
+    for name in PREDEFINED:
+        for via in ('direct', 'copy'):
+            if n % nshards == shard:
+                yield {'kind': 'ctor', 'items': [['pre-' + via, name, '', 0], ['ctor', '250', 'next', 0]],
+                       'trailer': b'25', 'nl': -1, 'send': 0, 'rs': n}
+            n += 1
     rnd = random.Random('c17-%d-%d' % (seed, shard))
     for i in range(NRANDOM[tier] // nshards):
         reps = []
@@ -174,6 +241,16 @@ def gen_cases(tier, seed, shard, nshards):
                     break
             reps.append([code, t])
         yield {'kind': 'rand', 'replies': reps, 'trailer': rnd.choice(TRAILERS), 'rs': rnd.randrange(1 << 30)}
+    for i in range(NCTOR[tier] // nshards):
+        items = []
+        for _ in range(rnd.choice([1, 2, 2, 3])):
+            while True:
+                t = ''.join(rnd.choice(TOKENS) for _ in range(rnd.randrange(0, 9)))
+                if not t[:1].isspace():
+                    break
+            items.append([rnd.choice(BUILDS), str(rnd.randrange(200, 600)), t, rnd.randrange(5)])
+        yield {'kind': 'ctor', 'items': items, 'trailer': rnd.choice(TRAILERS),
+               'nl': rnd.choice([-1, -1, 0, 1, 2]), 'send': rnd.randrange(3), 'rs': rnd.randrange(1 << 30)}
     # exhaustive byte-alphabet space last, shortest strings first: a budget cut only ever trims its tail
     for total in range(0, MAL_BOUND[tier] + 1):
         for pre in itertools.product(MAL_ALPHA, repeat=min(total, PREFIX)):
@@ -335,6 +412,323 @@ def run_roundtrip(case, R):
     R.observe('seg-count', min(nev, 400) // 20)
 
 
+# ------------------------------------------------------------------ build paths x reader modes
+MODEL_ESC = re.compile(r'^[245](\.\d\d?\d?\.\d\d?\d?)\s+')
+
+
+def model_parts(code, text):
+    """What Reply documents for a caller-supplied text under a 2xx/4xx/5xx code: a leading ESC token is pulled
+    out (its class digit follows the reply code), white space after it is dropped.  Returns (esc-tail, body)."""
+    m = MODEL_ESC.match(text)
+    if m:
+        return m.group(1), text[m.end():]
+    return '.0.0', text
+
+
+def model_message(code, text, esc_tail=None):
+    if code[0] not in '245':
+        return text
+    tail, body = model_parts(code, text)
+    return '%s%s %s' % (code[0], esc_tail or tail, body) if body else ''
+
+
+def build_reply(build, code, text, aux):
+    """Populate a Reply the way `build` names it. Returns (reply, expected Reply.message or None = not judged)."""
+    import slimta.smtp.reply as reply_mod
+    c245 = code[0] in '245'
+    if build == 'ctor':
+        return Reply(code, text, command=b'RCPT'), model_message(code, text)
+    if build == 'attrs':
+        r = Reply()
+        r.code = code
+        r.message = text
+        return r, model_message(code, text)
+    if build == 'msg-first':      # without a code the ESC is always pulled out; judged for 2xx/4xx/5xx only
+        r = Reply()
+        r.message = text
+        r.code = code
+        return r, (model_message(code, text) if c245 else None)
+    if build == 'copy':
+        src = Reply(code, text)
+        r = Reply('550', '5.1.1 previous', command=b'RCPT').copy(src)
+        return r, model_message(code, text)
+    if build == 'copy-noesc':     # copy() must carry the disabled ESC along
+        src = Reply(code, text)
+        src.enhanced_status_code = False
+        r = Reply('550', '5.1.1 previous').copy(src)
+        return r, (model_parts(code, text)[1] if c245 else text)
+    if build == 'esc-explicit':   # class digit of the explicit ESC is irrelevant: it follows the code
+        r = Reply(code, text)
+        r.enhanced_status_code = AUX_ESC[aux]
+        return r, model_message(code, text, esc_tail=AUX_ESC[aux][1:])
+    if build == 'esc-none':       # None means "default", whatever was there before
+        r = Reply(code, text)
+        r.enhanced_status_code = None
+        if not c245:
+            return r, text
+        body = model_parts(code, text)[1]
+        return r, ('%s.0.0 %s' % (code[0], body) if body else '')
+    if build == 'esc-false':
+        r = Reply(code, text)
+        r.enhanced_status_code = False
+        return r, (model_parts(code, text)[1] if c245 else text)
+    if build == 'esc-false-remsg':   # the EHLO path: ESC disabled, message replaced afterwards
+        r = Reply(code, 'Hello')
+        r.enhanced_status_code = False
+        r.message = text
+        return r, (model_message(code, text) if c245 and MODEL_ESC.match(text) else text)
+    if build == 'recode':
+        first = AUX_CODE[aux]
+        r = Reply(first, text)
+        r.code = code
+        if (first[0] in '245') == c245:
+            return r, model_message(code, text)
+        return r, None
+    if build == 'remsg':          # a previous ESC must not leak into the new message
+        r = Reply(code, '4.7.1 previous text')
+        r.message = text
+        return r, model_message(code, text)
+    if build == 'pre-direct':
+        return getattr(reply_mod, code), None
+    if build == 'pre-copy':
+        pre = getattr(reply_mod, code)
+        r = Reply(command=b'DATA').copy(pre)
+        r.newline_first = pre.newline_first
+        return r, pre.message
+    raise ValueError(build)
+
+
+def reader_model(mode, code, text):
+    """The text a reader of this mode presents for wire text `text` (documented Reply behaviour): IO.recv_reply
+    gives the wire text; a Reply pulls a leading ESC out and shows it with the class of the code; a plain Reply
+    also adds the default X.0.0 when there is none, the Client's ESC-disabled Reply does not."""
+    if mode == 'raw' or code[0] not in '245':
+        return text
+    if mode == 'client-noesc' and not MODEL_ESC.match(text):
+        return text
+    return model_message(code, text)
+
+
+def make_reader(mode, reused):
+    if mode == 'client-noesc':
+        r = Reply(command=b'EHLO')
+        r.enhanced_status_code = False
+        return r
+    if mode == 'reused':
+        return reused
+    return Reply(command=b'MAIL')
+
+
+def run_ctor(case, R):
+    items = [tuple(x) for x in case['items']]
+    trailer, nl, sendv = case['trailer'], case['nl'], case['send']
+    rnd = random.Random(case['rs'])
+    ss = ScriptSocket()
+    wio = IO(ss, address=('h', 1))
+    wires, meta = [], []      # meta: (code, sent, noesc, pre_len, build)
+    for k, (build, code, text, aux) in enumerate(items):
+        try:
+            r, model = build_reply(build, code, text, aux)
+            code = r.code
+            sent = r.message
+            wesc = r.enhanced_status_code
+        except Exception as ex:
+            R.eval()
+            R.violation('build-raises/%s/%s' % (build, type(ex).__name__), 'building %r raised %r'
+                        % (items[k], ex), {'items': items, 'index': k})
+            return
+        if sent[:1].isspace():
+            R.count('skipped-first-line-starts-with-white-space')
+            return
+        R.observe('build-shape', (build, code[0], bool(ESC_LOOK.match(text)), wesc is None, '\n' in sent))
+        if model is not None:
+            R.hit('caller-text-compared')
+            if sent != model:
+                R.violation('written-message-differs-from-caller-text/%s' % build,
+                            'Reply.message is %r for caller text %r under code %s (expected %r)'
+                            % (sent[:60], text[:60], code, model[:60]), {'item': items[k], 'message': sent,
+                                                                         'expected': model})
+        if wesc is not None:
+            R.hit('esc-class-compared')
+            if wesc[0] != code[0]:
+                R.violation('esc-class-differs/written-object', 'ESC %s under code %s (%s)' % (wesc, code, build),
+                            {'item': items[k]})
+        if r.is_error() != (code[0] in '45'):
+            R.violation('is-error-differs/written-object', 'is_error() %r under code %s' % (r.is_error(), code),
+                        {'item': items[k]})
+        nlf = (k == nl and not build.startswith('pre-')) or (build.startswith('pre-') and r.newline_first)
+        old_nl = r.newline_first
+        before = len(b''.join(ss.sent)) + len(wio.send_buffer.getvalue())
+        try:
+            if nlf:
+                r.newline_first = True
+            if sendv == 2 or (sendv == 1 and nlf):
+                r.send(wio, flush=True)
+                R.hit('flush-judged')
+                if wio.send_buffer.getvalue() != b'' or len(b''.join(ss.sent)) <= before:
+                    R.violation('send-flush/reply-not-on-the-socket', 'Reply.send(io, flush=True) left %r buffered'
+                                % wio.send_buffer.getvalue()[:40], {'items': items, 'index': k})
+            elif sendv == 1:
+                wio.send_reply(r)
+            else:
+                r.send(wio)
+        except Exception as ex:
+            R.eval()
+            R.violation('send-raises/%s' % type(ex).__name__, 'writer raised %r for %r' % (ex, items[k]),
+                        {'items': items, 'index': k})
+            return
+        finally:
+            r.newline_first = old_nl
+        w = (b''.join(ss.sent) + wio.send_buffer.getvalue())[before:]
+        pre = 0
+        if nlf:
+            R.hit('newline-first-judged')
+            if not w.startswith(b'\r\n' + code.encode('ascii')):
+                R.violation('newline-first/blank-line-not-written', 'newline_first reply written as %r' % w[:20],
+                            {'items': items, 'index': k, 'wire': w})
+                R.eval()
+                return      # the reply boundaries are unknown now: reading it back would only add knock-on names
+            pre = 2
+        wires.append(w)
+        meta.append((code, sent, code[0] in '245' and wesc is None and sent != '', pre, build))
+    wio.flush_send()
+    wire = b''.join(ss.sent)
+    if wire != b''.join(wires):
+        R.violation('unclassified/send-buffer-reordered', 'flushed bytes differ from the bytes buffered in order',
+                    {'items': items, 'wire': wire, 'pieces': wires})
+        return
+    ends = list(itertools.accumulate(map(len, wires)))
+    starts = [0] + ends[:-1]
+    if len(items) > 1 or any('\n' in m[1] for m in meta) or any(m[4] != 'ctor' for m in meta):
+        R.nontrivial(('ctor', items, nl))
+    ref = [(e[1], e[2]) for e in ref_parse(b''.join(w[m[3]:] for w, m in zip(wires, meta))) if e[0] == 'reply']
+    writer_ok = ref == [(m[0], norm(m[1])) for m in meta]
+    # on the wire: 2xx/4xx/5xx ESC class
+    for (code, sent, noesc, pre, build), w in zip(meta, wires):
+        first = w[pre:].split(b'\r\n')[0][4:].decode('utf-8')
+        m = ESC_WIRE.match(first)
+        if code[0] in '245' and m and not noesc:
+            R.hit('esc-class-compared')
+            if m.group(1) != code[0]:
+                R.violation('esc-class-differs/on-wire', 'wire %r carries ESC class %s under code %s'
+                            % (first[:30], m.group(1), code), {'items': items, 'wire': wire})
+    data = wire + trailer
+    nev = 0
+    for si, (label, segs) in enumerate(segmentations(data, rnd, focus=ends, nrandom=4, pair_window=2)):
+        modes = READERS if label in ('whole', 'bytewise', 'all') and si < 2 else [READERS[si % 4]]
+        for mode in modes:
+            nev += 1
+            fail = read_sequence(segs, mode, meta, data, ends, starts, writer_ok, R)
+            if fail is None:
+                continue
+            k, why, got = fail
+            code, sent, noesc, pre, build = meta[k]
+            # name: the oracle clause (a wrongly populated Reply has its own mechanism, written-message-differs-
+            # from-caller-text/<build>; what is written depends on code and message only) + the reader mode, but
+            # only when a plain Reply reads the same segments correctly
+            if not why.startswith(('reply-recv/', 'newline-first/')):
+                suffix = ''
+                if mode != 'fresh':
+                    base = read_sequence(segs, 'fresh', meta, data, ends, starts, writer_ok, None)
+                    if base is None or base[:2] != fail[:2]:
+                        suffix += '/reader=%s' % mode
+                if suffix:      # the input class of the text stays in the witness
+                    why = '/'.join(why.split('/')[:2]) + suffix
+            R.violation(why, '%s: reply %d of %r (written message %r)' % (why, k, items, sent[:60]),
+                        {'items': items, 'written_messages': [m[1] for m in meta], 'wire': wire,
+                         'trailer': trailer, 'segments': segs, 'reply_index': k, 'reader': mode,
+                         'expected': (code, reader_model(mode, code, norm(sent))), 'got': got, 'seg_label': label})
+    R.eval(nev)
+
+
+def read_sequence(segs, mode, meta, data, ends, starts, writer_ok, R):
+    """Read the written replies back in reader mode `mode`. Returns None or (reply index, oracle clause, got) of
+    the first disagreement. R=None: no counters (used to attribute a disagreement)."""
+    sock = ScriptSocket(segs)
+    io = IO(sock, address=('h', 1))
+    reused = Reply('550', '5.1.1 previous', command=b'DATA')
+    for k, (code, sent, noesc, pre, build) in enumerate(meta):
+        text = reader_model(mode, code, norm(sent))
+        why = got = None
+        blank = None
+        for attempt in (0, 1):
+            r2 = make_reader(mode, reused)
+            try:
+                if mode == 'raw':
+                    got = io.recv_reply()
+                else:
+                    r2.recv(io)
+                    got = (r2.code, r2.message)
+            except WouldBlock:
+                why = 'parser-asks-for-more-with-complete-reply-buffered'
+            except BadReply as ex:
+                if pre and attempt == 0:
+                    left = io.recv_buffer + sock.unread()
+                    if left != data[starts[k] + 2:]:
+                        why, got = 'newline-first/blank-line-rejection-consumes-other-bytes', left
+                        break
+                    if mode != 'raw' and mode != 'reused' and (r2.code, r2.message) != (None, None):
+                        why, got = 'reply-recv/object-populated-after-bad', (r2.code, r2.message)
+                        break
+                    blank = 'rejected'
+                    continue
+                why, got = 'parser-rejects-library-written-reply', repr(ex)
+            except ConnectionLost:
+                why = 'unclassified/connection-lost-without-eof'
+            except Exception as ex:
+                why, got = 'recv-raises/%s' % type(ex).__name__, repr(ex)
+            break
+        if why is None:
+            left = io.recv_buffer + sock.unread()
+            if got[0] != code:
+                why = 'code-differs'
+            elif got[1] != text:
+                why = 'text-differs/%s/%s' % ('parser' if writer_ok else 'writer', text_class(code, sent, got[1]))
+            elif left != data[ends[k]:]:
+                why = 'successor-damaged/%s' % ('last' if k == len(meta) - 1 else 'pipelined')
+                got = (got, left)
+            if R is not None:
+                if pre:
+                    R.observe('newline-first-reader', blank or 'skipped')
+                R.hit('roundtrip-compared')
+                R.hit('build-path-compared')
+                if why is None or why.startswith('successor'):
+                    R.hit('successor-compared')
+                if mode == 'client-noesc' and noesc:
+                    R.hit('noesc-pair-compared')
+                elif mode == 'reused':
+                    R.hit('reused-reader-compared')
+                elif mode == 'raw':
+                    R.hit('raw-reader-compared')
+                if mode != 'raw':
+                    esc = r2.enhanced_status_code
+                    if esc:
+                        R.hit('esc-class-compared')
+                        if esc[0] != r2.code[0]:
+                            R.violation('esc-class-differs/parsed-object', 'ESC %s under code %s' % (esc, r2.code),
+                                        {'segments': segs, 'reader': mode, 'written_messages': [m[1] for m in meta]})
+                    R.hit('is-error-compared')
+                    if r2.is_error() != (code[0] in '45'):
+                        R.violation('is-error-differs/parsed-object', 'is_error() %r under code %s'
+                                    % (r2.is_error(), code), {'reader': mode, 'code': code})
+        if why:
+            return k, why, got
+    return None
+
+
+def run_odd(case, R):
+    """Recorded, not judged: message types outside the documented str."""
+    for label, args in (('bytes-message', ('250', b'OK')), ('none-message', ('250', None)), ('int-code', (250, 'x'))):
+        try:
+            r = Reply(*args)
+            io = IO(ScriptSocket(), address=('h', 1))
+            r.send(io)
+            out = 'written:%r' % io.send_buffer.getvalue()
+        except Exception as ex:
+            out = type(ex).__name__
+        R.count('unjudged/%s->%s' % (label, out))
+
+
 # ------------------------------------------------------------------ malformed space
 def drive(s, segs, eof, ncalls):
     """Call the real IO.recv_reply until it stops returning replies (at most ncalls times: a parser that does
@@ -360,6 +754,35 @@ def drive(s, segs, eof, ncalls):
             continue
         break
     return outs
+
+
+def drive_reply(s, segs, eof, ncalls):
+    """The same through Reply.recv (reader prepared the way Client prepares the banner/EHLO reply, so that the
+    text is presented as received). Also reports whether a failed recv left the object populated."""
+    ss = ScriptSocket(segs, eof=eof)
+    io = IO(ss, address=('h', 1))
+    outs, populated = [], None
+    n = len(s)
+    for _ in range(ncalls):
+        r = Reply(command=b'EHLO')
+        r.enhanced_status_code = False
+        try:
+            r.recv(io)
+        except BadReply:
+            outs.append(('bad',))
+        except WouldBlock:
+            outs.append(('block',))
+        except ConnectionLost:
+            outs.append(('lost',))
+        except Exception as ex:
+            outs.append(('exc', type(ex).__name__))
+        else:
+            outs.append(('reply', r.code, r.message, n - len(io.recv_buffer) - sum(map(len, ss.segments))))
+            continue
+        if (r.code, r.message) != (None, None) or r:
+            populated = (r.code, r.message)
+        break
+    return outs, populated
 
 
 def judge(events, outs, eof):
@@ -425,11 +848,11 @@ def run_lines(case, R):
             s = b''.join(toks)
             focus = list(itertools.accumulate(map(len, toks)))
             run_stream(s, rnd, R, acc, (segs for _, segs in segmentations(s, rnd, focus=focus, nrandom=4,
-                                                                          pair_window=2)))
+                                                                          pair_window=2)), via_reply=True)
     flush_acc(R, acc, ('lines', case['first'], case['total']))
 
 
-def run_stream(s, rnd, R, acc, seglist=None):
+def run_stream(s, rnd, R, acc, seglist=None, via_reply=False):
     events = ref_parse(s)
     last = events[-1]
     acc['refclass'].add(tuple(e[0] if e[0] == 'reply' else e[0] + ':' + str(e[1]) for e in events))
@@ -448,6 +871,19 @@ def run_stream(s, rnd, R, acc, seglist=None):
                 R.violation(viol[0], '%s on stream %r' % (viol[0], s),
                             {'stream': s, 'segments': segs, 'eof': eof, 'reference_events': events,
                              'library_outcomes': outs, 'disagreement': viol[1]})
+            elif nseg < 2 and (via_reply or len(s) <= 5):
+                # Reply.recv must show what IO.recv_reply showed (already judged against the reference) and a
+                # failed recv must not leave a partly populated Reply behind
+                acc['ev'] += 1
+                outs2, populated = drive_reply(s, segs, eof, len(events))
+                acc['rr'] = acc.get('rr', 0) + 1
+                if outs2 != outs:
+                    R.violation('reply-recv/outcome-differs-from-recv_reply', 'Reply.recv and IO.recv_reply disagree '
+                                'on stream %r' % s, {'stream': s, 'segments': segs, 'eof': eof,
+                                                     'recv_reply': outs, 'reply_recv': outs2})
+                elif populated is not None:
+                    R.violation('reply-recv/object-populated-after-%s' % outs2[-1][0], 'failed Reply.recv left %r'
+                                % (populated,), {'stream': s, 'segments': segs, 'eof': eof, 'reply_recv': outs2})
 
 
 def run_malformed(case, R):
@@ -462,6 +898,8 @@ def run_malformed(case, R):
 def flush_acc(R, acc, key):
     R.eval(acc['ev'])
     R.hit('malformed-judged', acc['judged'])
+    if acc.get('rr'):
+        R.hit('reply-recv-malformed-compared', acc['rr'])
     if acc['nt']:
         R.nontrivial(key)
         R.count('malformed-strings-with-a-complete-line', acc['nt'])
@@ -499,5 +937,9 @@ def run_case(case, R):
         run_lines(case, R)
     elif kind == 'unj':
         run_unjudged(case, R)
+    elif kind == 'ctor':
+        run_ctor(case, R)
+    elif kind == 'odd':
+        run_odd(case, R)
     else:
         run_roundtrip(case, R)
